@@ -12,6 +12,9 @@ code makes, in which unit, on which quantity.  (Until it was fixed the edge matc
 coordinate-DEGREE distance with the tolerance in METRES; the old witness is kept as a regression `example`.)
 (Until it was fixed the vertex matcher rejected a distance exactly AT the tolerance; regression `example` kept.)
 
+Second part (model `Compass/Model/MapMatchIO.lean`): the query readers / writers of `InputJsonExtensions`, the
+two builders with `RTreePlugin::new` / `EdgeRtreeInputPlugin::new`, and the range checks of `haversine`.
+
 Outside the theorems: the f32 rounding of coordinates and of `haversine`, the geometry behind `distance_2`
 (for edges it is the distance to the CENTROID of the linestring, not to the linestring), `rstar` itself.
 -/
@@ -506,6 +509,198 @@ theorem edge_destination_optional (tol : Option (α × DistanceUnit))
           · exact SameOthers.refl _ _
           · next q1 h1 => exact addField_sameOthers (by decide) h1
 
+/-! ### reading the query: coordinates, and the ids the matchers wrote -/
+
+/-- the coordinate readers used inside `process` are the value-returning readers of
+`InputJsonExtensions` with the value dropped: same acceptance, same error, field by field -/
+theorem coordinate_readers_agree (q : Json) :
+    originCoordinate q = (originCoordinateBits q).map (fun _ => ()) ∧
+    destinationCoordinate q = (destinationCoordinateBits q).map Option.isSome := by
+  constructor
+  · unfold originCoordinate originCoordinateBits numField numFieldBits
+    cases q.get? Field.originX.name with
+    | none => rfl
+    | some x =>
+      cases x <;> simp [Json.isNumber, Json.asF64Bits?, Except.map] <;>
+      (cases q.get? Field.originY.name with
+        | none => rfl
+        | some y => cases y <;> simp [Json.isNumber, Json.asF64Bits?])
+  · unfold destinationCoordinate destinationCoordinateBits
+    cases q.get? Field.destinationX.name with
+    | none => cases q.get? Field.destinationY.name <;> rfl
+    | some x =>
+      cases q.get? Field.destinationY.name with
+      | none => rfl
+      | some y => cases x <;> cases y <;> simp [Json.isNumber, Json.asF64Bits?, Except.map]
+
+/-- C16 (the match can be read back): whatever id (below 2^64, i.e. any `usize`) one of the four writers puts
+into a query, the corresponding reader of `InputJsonExtensions` returns exactly that id — also when the key was
+there before, whatever it held. -/
+theorem written_id_reads_back (q q' : Json) (n : Nat) (hn : n < 2 ^ 64) :
+    (addField q .originVertex n = .ok q' → getOriginVertex q' = .ok n) ∧
+    (addField q .destinationVertex n = .ok q' → getDestinationVertex q' = .ok (some n)) ∧
+    (addField q .originEdge n = .ok q' → getOriginEdge q' = .ok n) ∧
+    (addField q .destinationEdge n = .ok q' → getDestinationEdge q' = .ok (some n)) := by
+  refine ⟨?_, ?_, ?_, ?_⟩ <;> intro h <;> obtain ⟨kvs, rfl, rfl⟩ := addField_ok h <;>
+    simp [getOriginVertex, getDestinationVertex, getOriginEdge, getDestinationEdge, getRequiredId, getOptionalId,
+      Json.get?, lookup_insertKv_same, asU64_idJson n hn]
+
+/-- C16 (vertex, end to end): after a successful vertex match the search application reads, through
+`get_origin_vertex`, the id of a vertex that minimises the squared coordinate distance over all vertices. -/
+theorem vertex_match_reads_back_argmin (tol : Option (α × DistanceUnit)) (q : Json) (oc dc : List (VCand α))
+    (hso : Sorted VCand.d2 oc) (hsd : Sorted VCand.d2 dc) (hid : ∀ c ∈ oc, c.id < 2 ^ 64)
+    (hok : (vertexProcess tol q oc dc).err = none) :
+    ∃ c ∈ oc, (∀ c' ∈ oc, c.d2 ≤ c'.d2) ∧ getOriginVertex (vertexProcess tol q oc dc).query = .ok c.id := by
+  obtain ⟨⟨c, hc, hmin, hget⟩, _⟩ := vertex_match_is_argmin tol q oc dc hso hsd hok
+  refine ⟨c, hc, hmin, ?_⟩
+  unfold getOriginVertex getRequiredId
+  show (match (vertexProcess tol q oc dc).query.get? "origin_vertex" with | none => _ | some v => _) = _
+  rw [hget]
+  simp [asU64_idJson c.id (hid c hc)]
+
+/-- the readers name the field they were asked for (the code used to blame `origin_edge` for an ill-typed
+`destination_edge`; oracle key `ext/error-names-wrong-field`) -/
+theorem id_reader_errors_name_their_field (q : Json) (f : Field) (e : Err) :
+    (getRequiredId q f = .error e → e = .missingField f ∨ e = .invalidType f) ∧
+    (getOptionalId q f = .error e → e = .invalidType f) := by
+  constructor
+  · unfold getRequiredId
+    intro h
+    split at h
+    · injection h with h; exact Or.inl h.symm
+    · split at h
+      · cases h
+      · injection h with h; exact Or.inr h.symm
+  · unfold getOptionalId
+    intro h
+    split at h
+    · cases h
+    · split at h
+      · cases h
+      · injection h with h; exact h.symm
+
+/-- the writers refuse exactly the values that are not objects, and leave them alone -/
+theorem writer_refuses_non_objects (q : Json) (f : Field) (n : Nat) :
+    (∃ q', addField q f n = .ok q') ↔ q.isObject = true := by
+  cases q <;> simp [addField, Json.isObject]
+
+/-- writing over a key that is already there keeps every key where it was; a new key goes last -/
+theorem writer_keeps_key_order (kvs : List (String × Json)) (f : Field) (n : Nat) :
+    (kvs.any (fun p => p.1 == f.name) = true →
+      (insertKv kvs f.name (idJson n)).map Prod.fst = kvs.map Prod.fst) ∧
+    (¬ kvs.any (fun p => p.1 == f.name) = true →
+      (insertKv kvs f.name (idJson n)).map Prod.fst = kvs.map Prod.fst ++ [f.name]) :=
+  ⟨keys_insertKv_of_mem kvs _ _, keys_insertKv_of_not_mem kvs _ _⟩
+
+/-! ### the builders -/
+
+/-- the tolerance a configuration yields: none without `distance_tolerance` (a lone `distance_unit` is
+ignored), metres when only the tolerance is given, the stated unit otherwise -/
+theorem builder_tolerance_resolution (t : Nat) (u : DistanceUnit) :
+    resolveTolerance (none : Option Nat) (none : Option DistanceUnit) = none ∧
+    resolveTolerance (none : Option Nat) (some u) = none ∧
+    resolveTolerance (some t) none = some (t, DistanceUnit.meters) ∧
+    resolveTolerance (some t) (some u) = some (t, u) := ⟨rfl, rfl, rfl, rfl⟩
+
+/-- `VertexRTreeBuilder::build` succeeds exactly on well-formed configurations, and then with the tolerance of
+`builder_tolerance_resolution`; every other configuration is an error value (the model has no panic outcome:
+that the real builder has none either is what the `b v` correspondence stream checks) -/
+theorem vertex_builder_ok_iff (cfg : Json) (fileExists fileParses : Bool) (r : Option (Nat × DistanceUnit)) :
+    vertexBuilder cfg fileExists fileParses = .ok r ↔
+      (∃ p, cfgString cfg "vertices_input_file" = .ok p) ∧ fileExists = true ∧ fileParses = true ∧
+      ∃ t u, cfgTolerance cfg = .ok t ∧ cfgUnit cfg = .ok u ∧ r = resolveTolerance t u := by
+  unfold vertexBuilder
+  cases hp : cfgString cfg "vertices_input_file" with
+  | error e => simp
+  | ok p =>
+    cases fileExists with
+    | false => simp
+    | true =>
+      cases ht : cfgTolerance cfg with
+      | error e => simp
+      | ok t =>
+        cases hu : cfgUnit cfg with
+        | error e => simp
+        | ok u =>
+          cases fileParses with
+          | false => simp
+          | true => simp [eq_comm]
+
+/-- `EdgeRtreeInputPlugin::new` accepts exactly readable files without an empty linestring whose road-class
+lookup, if any, has the network's size -/
+theorem edge_new_ok_iff (files : EdgeFiles) (tol : Option (Nat × DistanceUnit)) (hasRc hasVr : Bool) (pl : EdgePlugin) :
+    edgeNew files tol hasRc hasVr = .ok pl ↔
+      (⟨tol, hasRc, hasVr⟩ : EdgePlugin) = pl ∧ files.emptyLinestring = false ∧ files.geometry.isSome ∧
+      (hasRc = true → files.roadClass = files.geometry) ∧ (hasVr = true → files.restrictionsOk = true) := by
+  obtain ⟨rcl, rok, geo, empty⟩ := files
+  unfold edgeNew
+  cases hasRc <;> cases hasVr <;> cases geo <;> cases empty <;> cases rok <;> cases rcl <;> simp <;>
+    (split <;> simp_all)
+
+/-- a plugin the edge builder accepts has a road-class lookup of exactly the network's size whenever it has
+one, and no empty linestring: the "road class file missing edge" arm of `search` and the panic of
+`EdgeRtreeRecord::distance_2` are out of reach of every built plugin; its tolerance is the one of
+`builder_tolerance_resolution`.  Every other configuration is an error value (the model has no panic outcome:
+that the real builder has none either is what the `b e` correspondence stream checks). -/
+theorem edge_builder_consistent (cfg : Json) (files : EdgeFiles) (pl : EdgePlugin)
+    (h : edgeBuilder cfg files = .ok pl) :
+    files.emptyLinestring = false ∧ files.geometry.isSome ∧
+    (pl.hasLookup = true → files.roadClass = files.geometry) ∧
+    (pl.hasRestrictions = true → files.restrictionsOk = true) ∧
+    ∃ t u, cfgTolerance cfg = .ok t ∧ cfgUnit cfg = .ok u ∧ pl.tolerance = resolveTolerance t u := by
+  unfold edgeBuilder at h
+  cases hg : cfgString cfg "geometry_input_file" with
+  | error e => simp [hg] at h
+  | ok g =>
+    cases hrc : cfgStringOpt cfg "road_class_input_file" with
+    | error e => simp [hg, hrc] at h
+    | ok rc =>
+      cases hvr : cfgStringOpt cfg "vehicle_restriction_input_file" with
+      | error e => simp [hg, hrc, hvr] at h
+      | ok vr =>
+        cases ht : cfgTolerance cfg with
+        | error e => simp [hg, hrc, hvr, ht] at h
+        | ok t =>
+          cases hu : cfgUnit cfg with
+          | error e => simp [hg, hrc, hvr, ht, hu] at h
+          | ok u =>
+            simp only [hg, hrc, hvr, ht, hu] at h
+            split at h
+            · cases h
+            · obtain ⟨rfl, h1, h2, h3, h4⟩ := (edge_new_ok_iff _ _ _ _ _).mp h
+              exact ⟨h1, h2, h3, h4, t, u, rfl, rfl, rfl⟩
+
+/-! ### haversine: which coordinates it accepts -/
+
+/-- `coord_distance_meters` answers exactly for coordinates inside [-180,180] × [-90,90] (both ends
+included), for source and destination alike; `coord_distance` is the same answer converted -/
+theorem haversine_accepts_iff_in_range (sx sy dx dy value : α) (u : DistanceUnit) :
+    ((coordDistanceMeters sx sy dx dy value).isSome ↔
+      (-180 ≤ sx ∧ sx ≤ 180) ∧ (-180 ≤ dx ∧ dx ≤ 180) ∧ (-90 ≤ sy ∧ sy ≤ 90) ∧ (-90 ≤ dy ∧ dy ≤ 90)) ∧
+    (∀ m, coordDistanceMeters sx sy dx dy value = some m → m = value) ∧
+    coordDistance sx sy dx dy value u = (coordDistanceMeters sx sy dx dy value).map (DistanceUnit.meters.convert u) := by
+  refine ⟨?_, ?_, ?_⟩
+  · unfold coordDistanceMeters coordsInRange inRange
+    simp only [LawfulLit.lit_eq]
+    split
+    · next h =>
+      simp only [Bool.and_eq_true, decide_eq_true_eq] at h
+      simp only [Option.isSome_some, true_iff]
+      norm_num at h ⊢
+      tauto
+    · next h =>
+      simp only [Bool.and_eq_true, decide_eq_true_eq] at h
+      simp only [Option.isSome_none, Bool.false_eq_true, false_iff]
+      norm_num at h ⊢
+      tauto
+  · intro m h
+    unfold coordDistanceMeters at h
+    split at h
+    · injection h with h; exact h.symm
+    · cases h
+  · unfold coordDistance
+    cases coordDistanceMeters sx sy dx dy value <;> rfl
+
 end
 
 /-! ### non-vacuity -/
@@ -542,6 +737,29 @@ example : searchEdge (some ((20 : ℚ), DistanceUnit.kilometers)) none false
 example : (vertexProcess (none : Option (ℚ × DistanceUnit)) exQuery exVerts []).query.get? "model" = some (.str "m") := by
   simp [vertexProcess, exQuery, exVerts, originCoordinate, numField, destinationCoordinate, Json.get?, Json.lookup,
     Field.name, Json.isNumber, matchVertexInto, nearestVertex, validateTolerance, addField, Json.insertKv]
+
+-- the readers accept what the writers wrote, and reject what is not an id
+example : getOriginVertex (.obj [("origin_vertex", idJson 7)]) = .ok 7 := by
+  simp [getOriginVertex, getRequiredId, Json.get?, Json.lookup, Field.name, asU64_idJson]
+example : getDestinationEdge (.obj [("destination_edge", .str "7")]) = .error (.invalidType .destinationEdge) := by
+  simp [getDestinationEdge, getOptionalId, Json.get?, Json.lookup, Field.name, Json.asU64?]
+-- both outcomes of each builder occur
+example : vertexBuilder (.obj [("vertices_input_file", .str "v.csv"), ("distance_tolerance", .num "10" 0)]) true true
+    = .ok (some (0, DistanceUnit.meters)) := by
+  simp [vertexBuilder, cfgString, cfgTolerance, cfgUnit, Json.get?, Json.lookup, Json.asStr?, Json.asF64Bits?,
+    resolveTolerance, baseDistanceUnit]
+example : vertexBuilder (.obj [("distance_tolerance", .num "10" 0)]) true true = .error .missingField := by
+  simp [vertexBuilder, cfgString, Json.get?, Json.lookup]
+example : edgeBuilder (.obj [("geometry_input_file", .str "g.txt")]) ⟨none, true, some 3, true⟩ = .error .userConfig := by
+  simp [edgeBuilder, edgeNew, cfgParserOk, cfgString, cfgStringOpt, cfgTolerance, cfgUnit, Json.get?, Json.lookup, Json.asStr?]
+example : (edgeBuilder (.obj [("geometry_input_file", .str "g.txt")]) ⟨none, true, some 3, false⟩).toOption.isSome = true := by
+  simp [edgeBuilder, edgeNew, cfgParserOk, cfgString, cfgStringOpt, cfgTolerance, cfgUnit, Json.get?, Json.lookup, Json.asStr?,
+    Except.toOption]
+-- haversine: the dateline itself is inside the range, a hair beyond it is not
+example : (coordDistanceMeters (180 : ℚ) 0 (-180) 0 0).isSome = true := by
+  simp [coordDistanceMeters, coordsInRange, inRange, Lit.lit]
+example : (coordDistanceMeters (180 + 1 / 1000 : ℚ) 0 0 0 0).isSome = false := by
+  simp [coordDistanceMeters, coordsInRange, inRange, Lit.lit]
 
 end C16
 end Compass
